@@ -159,6 +159,8 @@ where
     /// state. Without this the backend's `handle_event()` can still be entered for a vring
     /// after the frontend has been told that it is stopped.
     pub(crate) fn wait_for_dispatch(&self) {
+        #[cfg(feature = "verif-hooks")]
+        vhost::verif::before_mutex(&self.dispatch, "ctl.wait_for_dispatch");
         drop(self.dispatch.lock().unwrap_or_else(|e| e.into_inner()));
     }
 
@@ -243,6 +245,8 @@ where
             return Ok(true);
         }
 
+        #[cfg(feature = "verif-hooks")]
+        vhost::verif::before_mutex(&self.dispatch, "worker.dispatch.lock");
         let _dispatch = self.dispatch.lock().unwrap_or_else(|e| e.into_inner());
 
         if (device_event as usize) < self.vrings.len() {
